@@ -90,6 +90,14 @@ func replayPrune(c *core.Ctx, lfsBin string, b *behaviour, idx int) (*core.Viola
 			}
 		case "serverloses":
 			w.ServerDelete(s.str("oid"))
+		case "otherremote":
+			// refs/remotes/other/<b> as a fetch from a second remote would have left it
+			b := s.str("b")
+			w.Env.Git(w.Clone, "remote", "add", "other", filepath.Join(w.Root, "other-remote.git"))
+			w.logf("git update-ref refs/remotes/other/%s %s", b, b)
+			if r := w.Env.Git(w.Clone, "update-ref", "refs/remotes/other/"+b, "refs/heads/"+b); !r.OK() {
+				return nil, fmt.Errorf("otherremote: %s", r.All())
+			}
 		case "worktree":
 			if err := w.AddWorktree(s.str("b")); err != nil {
 				return nil, err
@@ -171,7 +179,7 @@ func init() {
 		}
 		c.Level = "model_checking"
 		lfs := c.BuildLFS()
-		cfg, budget := "Prune_q.cfg", 330
+		cfg, budget := "Prune_q.cfg", 450
 		if !c.Quick() {
 			cfg, budget = "Prune_t.cfg", 3000
 		}
@@ -180,10 +188,10 @@ func init() {
 		c.MustPass(r, "Prune/"+cfg)
 		c.Set("states", r.Distinct)
 		c.Set("transitions", r.Generated)
-		samplePriority = func(class string) bool { return strings.Contains(class, "from-linked") }
+		samplePriority = func(class string) bool { return strings.Contains(class, "sole:") }
 		bs, total, nclasses := sampleBehaviours(c, r.OutFile, "flags", budget)
 		samplePriority = nil
-		requireActions(c, "commit", "committree", "push", "otherpush", "stage", "stash", "switch", "serverloses", "worktree", "prune")
+		requireActions(c, "commit", "committree", "push", "otherpush", "stage", "stash", "switch", "serverloses", "worktree", "otherremote", "prune")
 		c.Set("prune_edges_emitted", total)
 		c.Set("behaviour_classes", nclasses)
 		if len(bs) < 20 {
@@ -200,10 +208,10 @@ func init() {
 		c.Set("distinct_nontrivial", len(cls))
 		c.Set("attr_spellings", pruneAttrs)
 		c.Set("ambient_configs", pruneAmbient)
-		c.Set("rule", "behaviours = TLC per-edge output of spec/Prune.tla for every edge ending in a prune with a non-empty local store; sampled round-robin over classes (flags x features); each replayed with the default attribute line and git config or with one of them varied (concretisation-only dimensions); distinct_nontrivial = classes replayed")
+		c.Set("rule", "behaviours = TLC per-edge output of spec/Prune.tla for every edge ending in a prune with a non-empty local store; replayed: first classes in which some object is retained for one reason alone (each retention rule in isolation), then classes until every (flag, feature) and (feature, feature) pair has been replayed three times, then round-robin over classes (flags x features); each replayed with the default attribute line and git config or with one of them varied (concretisation-only dimensions); distinct_nontrivial = classes replayed")
 		for i := 0; i < len(bs); i += len(bs)/4 + 1 {
 			c.Sample(json.RawMessage(bs[i].raw))
 		}
-		c.Assume("commit dates are 0 or 20 days before now, far from the 10-day retention boundary; fetchrecentcommitsdays stays at its default 0; at most one linked worktree (prune run from either side); detached HEAD is not yet in the model")
+		c.Assume("commit dates are 0 or 20 days before now, far from the 10-day retention boundary; fetchrecentcommitsdays stays at its default 0; at most one linked worktree (prune run from either side); at most one remote-tracking ref of a second remote; detached HEAD is not yet in the model")
 	}
 }
